@@ -5,7 +5,8 @@ from props import *
 # ------------------------------------------------------------------------------------ C15
 class C15(SeqProp):
     pid = "C15"
-    spec_import = "Require Import PV.Spec.SpecC15."
+    spec_import = "Require Import PV.Spec.SpecC15.\nRequire PV.Proofs.C15Spec."
+    dom_fn = "PV.Proofs.C15Spec.dom15"     # the domain of the uniform spec-of-model theorem (counted in the evidence)
     spec_fn = "spec_c15"
     rule = ("each scenario is a group of 2-6 Desc::new calls over adversarial string pools (shared prefixes/suffixes, empty strings, "
             "boundary-shifted name/value splits, reordered constant labels, the FNV collision pair); non-trivial = at least two "
